@@ -197,8 +197,22 @@ def r_sm(X1, X2, p, k):
     return _pairs(X1, X2, one)
 
 
+ARC_MASKS = {1: [[1.0, 0.0, 1.0]], 2: [[1.0, 0.0, 1.0], [1.0, 1.0, 0.0]], 3: [[0.0, 1.0, 1.0], [1.0, 1.0, 0.0], [1.0, 0.0, 1.0]]}
+
+
+def _arc_delta(x):
+    """a delta function marking some coordinates inactive (decided by the row position: rows of x1 and of x2 get different patterns)"""
+    m = torch.tensor(ARC_MASKS[x.shape[-2]], dtype=x.dtype)[:, : x.shape[-1]]
+    return m.expand_as(x)
+
+
+@ref("arc_rbf_delta")
+def r_arc_delta(X1, X2, p, k):
+    return r_arc(X1, X2, p, k, masked=True)
+
+
 @ref("arc_rbf")
-def r_arc(X1, X2, p, k):
+def r_arc(X1, X2, p, k, masked=False):
     ls = P_(p, "lengthscale")
     ang, rad = P_(p, "angle"), P_(p, "radius")
     bls = P_(p, "base_lengthscale")
@@ -206,11 +220,19 @@ def r_arc(X1, X2, p, k):
     def pick(v, i):
         return v[i] if len(v) > 1 else v[0]
 
-    def emb(a):
-        s = [pick(rad, i) * sym_sin(Sym.const(math.pi) * pick(ang, i) * (a[i] / pick(ls, i))) for i in range(d)]
-        c = [pick(rad, i) * sym_cos(Sym.const(math.pi) * pick(ang, i) * (a[i] / pick(ls, i))) for i in range(d)]
+    def emb(a, mrow):
+        s = [pick(rad, i) * sym_sin(Sym.const(math.pi) * pick(ang, i) * (a[i] / pick(ls, i))) * Sym.const(mrow[i]) for i in range(d)]
+        c = [pick(rad, i) * sym_cos(Sym.const(math.pi) * pick(ang, i) * (a[i] / pick(ls, i))) * Sym.const(mrow[i]) for i in range(d)]
         return np.array(s + c, dtype=object)
-    return _pairs(X1, X2, lambda a, b: sym_exp(sqdist(emb(a), emb(b), bls) * Sym.const(-0.5)))
+    n1, n2 = X1.shape[0], X2.shape[0]
+    ones = [1.0] * d
+    R = np.empty((n1, n2), dtype=object)
+    for i in range(n1):
+        for j in range(n2):
+            ea = emb(X1[i], ARC_MASKS[n1][i] if masked else ones)
+            eb = emb(X2[j], ARC_MASKS[n2][j] if masked else ones)
+            R[i, j] = sym_exp(sqdist(ea, eb, bls) * Sym.const(-0.5))
+    return R
 
 
 def build(spec, d, ard, bs):
@@ -238,6 +260,8 @@ def build(spec, d, ard, bs):
         return K.SpectralMixtureKernel(num_mixtures=2, ard_num_dims=d, batch_shape=bsz)
     if spec == "arc_rbf":
         return K.ArcKernel(K.RBFKernel(ard_num_dims=2 * d), ard_num_dims=ad)
+    if spec == "arc_rbf_delta":
+        return K.ArcKernel(K.RBFKernel(ard_num_dims=2 * d), ard_num_dims=ad, delta_func=_arc_delta)
     raise KeyError(spec)
 
 
@@ -253,7 +277,7 @@ def read_params(k):
                 continue
             if isinstance(v, torch.Tensor):
                 p[name] = as_sym_arr(SH.get(v))
-    if isinstance(k, K.ArcKernel):
+    if isinstance(k, K.ArcKernel):  # (also with a custom delta function)
         p["base_lengthscale"] = as_sym_arr(SH.get(k.base_kernel.lengthscale))
     return p
 
@@ -571,6 +595,7 @@ def scenarios(tier, seed):
         add("value", spec="matern25", n1=3, n2=3, d=1, ard=False, batch=0, mode="same", wrap="scale")
         add("value", spec="rq", n1=2, n2=2, d=2, ard=True, batch=0, mode="diag", wrap="none")
         add("value", spec="rbf", n1=2, n2=3, d=2, ard=True, batch=2, mode="cross", wrap="scale")
+        add("value", spec="arc_rbf_delta", n1=2, n2=3, d=2, ard=True, batch=0, mode="cross", wrap="none")
         add("composition", n1=2, n2=3, d=2)
         for sp, dd in (("gskl", 2), ("hamming", 3), ("spectral_delta", 2), ("cylindrical", 2), ("additive_structure", 3),
                        ("product_structure", 2), ("newton_girard", 3), ("sum_interaction_terms", 3)):
@@ -599,6 +624,9 @@ def scenarios(tier, seed):
             if s in ("rbf", "matern05", "matern15", "matern25"):
                 add("value", spec=s, n1=2, n2=3, d=1, ard=False, batch=0, mode="autograd", wrap="none")
                 add("value", spec=s, n1=2, n2=3, d=1, ard=False, batch=0, mode="cross", wrap="scale")
+        for (n1, n2) in [(2, 3), (3, 2), (1, 3)]:
+            add("value", spec="arc_rbf_delta", n1=n1, n2=n2, d=2, ard=True, batch=0, mode="cross", wrap="none")
+        add("value", spec="arc_rbf_delta", n1=3, n2=3, d=3, ard=False, batch=0, mode="same", wrap="none")
         add("composition", n1=2, n2=3, d=2)
         add("composition", n1=3, n2=2, d=1)
         for sp, dds in (("gskl", (1, 2)), ("hamming", (2, 3)), ("spectral_delta", (1, 2)), ("cylindrical", (2, 3)), ("additive_structure", (2, 3)),
